@@ -52,7 +52,7 @@ func mkCfg(n int) *core.RuntimeConfig {
 // runCollector: reference = per view the set of distinct senders; quorum exactly when a view's set
 // reaches q by this very message, built from that view's messages only. After a view produced its
 // certificate (or was deleted as old) further messages for it are not judged (the view has been left).
-func runCollector(r *vbase.Result, n int, ops []colOp) bool {
+func runCollector(r *vbase.Result, n int, ops []colOp, unique bool) bool {
 	cfg := mkCfg(n)
 	q := 0
 	for 2*q-n < (n-1)/3+1 { // reference quorum: smallest q with 2q-n >= f+1
@@ -117,7 +117,11 @@ func runCollector(r *vbase.Result, n int, ops []colOp) bool {
 			r.Obs("quorums", 1)
 		}
 	}
-	r.Eval(len(views) >= 2, fmt.Sprint(n, ops))
+	if unique {
+		r.EvalUnique(len(views) >= 2) // a point of the exhaustive enumeration: distinct by construction
+	} else {
+		r.Eval(len(views) >= 2, fmt.Sprint(n, ops))
+	}
 	return true
 }
 
@@ -154,7 +158,7 @@ func verifCollector(p vbase.Params, r *vbase.Result) {
 				ops[i] = alpha[c%len(alpha)]
 				c /= len(alpha)
 			}
-			if !runCollector(r, 4, ops) && r.NViolations() > 5 {
+			if !runCollector(r, 4, ops, true) && r.NViolations() > 5 {
 				return
 			}
 		}
@@ -173,7 +177,7 @@ func verifCollector(p vbase.Params, r *vbase.Result) {
 				ops[k] = colOp{View: base + hotstuff.View(rng.Range(0, 4)), ID: hotstuff.ID(rng.Range(1, nn))}
 			}
 		}
-		runCollector(r, nn, ops)
+		runCollector(r, nn, ops, false)
 		if i < 2 {
 			r.Sample(map[string]any{"n": nn, "ops": fmt.Sprint(ops)})
 		}
